@@ -211,6 +211,62 @@ def check_following(chk, prog, sim):
         chk.discharge(key)
 
 
+def check_update_calls(chk, prog, sim):
+    """U: 'while following a getter each update forwards ...' needs every Updatable::update of a Settable type to run
+    update_following_data (the trait documentation says so: it cannot be done for the implementor).  For each type with
+    Settable impls, update is interpreted from a symbolic pre-state with update_following_data kept opaque (logged effect,
+    symbolic Result); every path that returns Ok must have called it once per Settable impl of the type, before returning."""
+    key = "U:update-calls-update_following_data"
+    chk.obligation(key, "every Updatable::update of a Settable type calls update_following_data for each of its Settable impls on every Ok path")
+    by_type = {}
+    for imp in prog.facts["impls"]:
+        if (imp.get("trait") or "").split("::")[-1] == "Settable" and imp["self"].get("k") == "adt":
+            by_type.setdefault(imp["self"]["name"], []).append(ty_str(imp["trait_args"][1]) if len(imp.get("trait_args", [])) > 1 else "?")
+    ok = True
+    n = 0
+    sim.inline_filter = lambda f: f["name"] != "update_following_data"
+    try:
+        for tname, insts in sorted(by_type.items()):
+            ups = prog.find_fns(name="update", self_name=tname, trait="Updatable")
+            if not ups:
+                chk.note("Settable type %s has no Updatable impl in this configuration" % tname) if hasattr(chk, "note") else None
+                continue
+            up = ups[0]
+            chk.analysed(up["pretty"])
+            n += 1
+            st = S.State()
+            g = sim.identity_gargs(up)
+            a0 = sim.make_arg(st, "self", subst(up["sig_inputs"][0], g))
+            leaves = sim.run(up, g, [a0], st)
+            for leaf in leaves:
+                chk.evaluated(1, nontrivial=(key, tname, repr(leaf.pc)))
+                if leaf.kind == "unsupported":
+                    chk.violation("analysis-incomplete", "%s:%s" % (key, tname), "simulator cannot model %s: %s" % (up["pretty"], leaf.info.get("msg")), fn=up["pretty"])
+                    ok = False
+                    continue
+                if leaf.kind != "return":
+                    continue
+                ret = sim.final_value(leaf.state, leaf.value)
+                if isinstance(ret, Enum) and ret.vname == "Err":
+                    continue
+                calls = [e[2] for e in leaf.effects if e[0] == "call" and e[2].endswith("::update_following_data")]
+                if len(calls) < len(insts):
+                    chk.violation("C15.U", "update-skips-following:%s" % tname,
+                                  "%s (%s) can return Ok having called update_following_data %d time(s) for %d Settable impl(s) [%s]: a followed getter's values are not forwarded on that path (path %s)"
+                                  % (up["pretty"], loc(up["span"]), len(calls), len(insts), ", ".join(insts), K.pc_str(leaf.pc) if hasattr(K, "pc_str") else repr(leaf.pc)[:200]),
+                                  fn=up["pretty"], file=loc(up["span"]))
+                    ok = False
+                    break
+    finally:
+        sim.inline_filter = None
+    if n < 3:
+        chk.violation("floor", "C15.settable-updatables", "expected >= 3 Settable types with an Updatable impl (ConstantGetter, Terminal, CommandPID), found %d" % n)
+        ok = False
+    chk.extra["settable_updatables"] = n
+    if ok:
+        chk.discharge(key)
+
+
 def check_history_adapter(chk, prog, sim):
     key = "H:GetterFromHistory"
     chk.obligation(key, "history adapter time algebra")
@@ -402,12 +458,14 @@ def run(chk):
     chk.rule("C15.B", "Settable::set: exactly one impl_set(value); on Ok store Some(value) afterwards; on Err store nothing and return that error")
     chk.rule("C15.W", "field-write index of SettableData")
     chk.rule("C15.F", "update_following_data / follow / stop_following / get_last_request tables")
+    chk.rule("C15.U", "every Updatable::update of a Settable type runs update_following_data (once per Settable impl) on every path that returns Ok")
     chk.rule("C15.H", "GetterFromHistory: query at now + delta, restamp with now; constructors fix delta by integer linear algebra")
     chk.rule("C15.T", "time getter adapters")
     sim = S.Sim(prog)
     check_set(chk, prog, sim)
     check_writers(chk, prog)
     check_following(chk, prog, sim)
+    check_update_calls(chk, prog, sim)
     check_history_adapter(chk, prog, sim)
     check_time_getters(chk, prog, sim)
     import selftest
